@@ -94,6 +94,8 @@ def is_filtered(prog: Prog, fn: Fn, e: ast.AST, depth: int = 0) -> Optional[bool
                 return True
             if any(".type ==" in u(c) or ".type in" in u(c) or "isinstance(" in u(c) or "get_child" in u(c) for gg in e.generators for c in gg.ifs):
                 return True  # typed selection is layout-insensitive
+            if any(isinstance(c, (ast.NamedExpr, ast.Call)) for gg in e.generators for c in gg.ifs):
+                return True  # elements selected by what a look-up makes of them (find_table(t) is None for a comment)
             return False
         return base
     if isinstance(e, ast.Subscript) and isinstance(e.slice, ast.Slice):
